@@ -8,6 +8,8 @@ instance : NatCast Float := ⟨Float.ofNat⟩
 def errName : Err → String
   | .emptyInput => "emptyInput" | .decreasingIndex => "decreasingIndex"
   | .bufferFull => "bufferFull" | .badMonth => "badMonth"
+  | .lengthMismatch => "lengthMismatch" | .intOverflow => "intOverflow"
+  | .badInterpolation => "badInterpolation" | .badTimestep => "badTimestep"
 
 /-- `nan` ↔ `none` -/
 def optOfFloat (x : Float) : Option Float := if x.isNaN then none else some x
@@ -57,10 +59,40 @@ def handle (toks : List String) : String :=
       | .ok months => "ok " ++ fmtNatList (months.map List.length) ++ " " ++ fmtOptList months.flatten
       | .error e => "err " ++ errName e
     | _, _, _, _ => "bad-op"
+  | ["aggw", op, maxnan, idx, vals] =>
+    match op.toInt?, maxnan.toInt?, parseIntList? idx, parseFloatList? vals with
+    | some op, some mx, some idx, some vals =>
+      match aggregateW op mx idx (vals.map optOfFloat) with
+      | .ok out => "ok " ++ fmtOptList out
+      | .error e => "err " ++ errName e
+    | _, _, _, _ => "bad-op"
+  | ["homogw", maxnan, idx, vals] =>
+    match maxnan.toInt?, parseIntList? idx, parseFloatList? vals with
+    | some mx, some idx, some vals =>
+      match flathomogenW mx idx (vals.map optOfFloat) with
+      | .ok out => "ok " ++ fmtOptList out
+      | .error e => "err " ++ errName e
+    | _, _, _ => "bad-op"
+  | ["aggindex", step, ys, ms, ds, hs] =>
+    match parseIntList? ys, parseNatList? ms, parseNatList? ds, parseNatList? hs with
+    | some ys, some ms, some ds, some hs =>
+      let stamps := (ys.zip (ms.zip (ds.zip hs))).map fun t => ({ y := t.1, m := t.2.1, d := t.2.2.1, h := t.2.2.2 } : Stamp)
+      match computeAggindex step stamps with
+      | .ok out => "ok " ++ fmtIntList out
+      | .error e => "err " ++ errName e
+    | _, _, _, _ => "bad-op"
+  | ["m2d", interp, y0, m0, minthr, vals] =>
+    match y0.toInt?, m0.toNat?, floatTok? minthr, parseFloatList? vals with
+    | some y0, some m0, some thr, some vals =>
+      match m2d interp y0 m0 thr (vals.map optOfFloat) with
+      | .ok months => "ok " ++ fmtNatList (months.map List.length) ++ " " ++
+          fmtOptList (months.flatten.map fun o => o.bind optOfFloat)
+      | .error e => "err " ++ errName e
+    | _, _, _, _ => "bad-op"
   | ["m2dcubic", y0, m0, vals] =>
     match y0.toInt?, m0.toNat?, parseFloatList? vals with
     | some y0, some m0, some vals =>
-      match m2dCubic y0 m0 vals with
+      match m2dCubic y0 m0 (0 : Float) (vals.map optOfFloat) with
       | .ok months => "ok " ++ fmtNatList (months.map List.length) ++ " " ++ fmtFloatList months.flatten
       | .error e => "err " ++ errName e
     | _, _, _ => "bad-op"
